@@ -44,6 +44,7 @@ DEFAULT_FAULTS = {
     "ser_result": 0.0,  # probability (per remote transfer) of a cloudpickle round trip
     "readonly": 0.0,    # probability that a deserialised value is handed over read-only
     "ro_data": 0.0,     # probability that an input block (DataNode) is handed over read-only
+    "spill": 0.0,       # per-step probability that a held value is spilled to "disk" and read back (cloudpickle round trip in place)
 }
 
 
@@ -145,6 +146,7 @@ class SimCluster:
             "sim_time": 0,
             "steps": 0,
             "data_loaded": 0,
+            "spill": 0,
             "traced_tasks": 0,
             "traced_lines": 0,
         }
@@ -281,6 +283,20 @@ class SimCluster:
                 w = tape.draw("fault.crash.worker", self.W)
                 if mem[w] or any(rw == w for rw, _ in running.values()):
                     crash(w, "random")
+            # --- fault: spill / unspill of a held value -----------------------------
+            if F["spill"] > 0 and tape.chance("fault.spill", F["spill"]):
+                ws = [w for w in range(self.W) if mem[w]]
+                if ws:
+                    w = ws[tape.draw("fault.spill.worker", len(ws))]
+                    ks = sorted(mem[w], key=sortkey)
+                    k = ks[tape.draw("fault.spill.key", len(ks))]
+                    try:
+                        mem[w][k] = cloudpickle.loads(cloudpickle.dumps(mem[w][k]))
+                    except Exception as e:  # noqa: BLE001
+                        raise Violation("pickle", f"value of {keystr(k)} does not survive cloudpickle (spill to disk): "
+                                        f"{type(e).__name__}: {e}") from e
+                    st["spill"] += 1
+                    log.add(f"{seq} {clock} SPILL {keystr(k)} w{w}")
             needed, keep = compute_needed()
             # garbage-collect what no one needs any more (scheduler release)
             for w in range(self.W):
